@@ -83,6 +83,16 @@ def SafeAt (L : Layout) (ck : Checksum) (img : Img) (lo hi : Option Root) (recs 
    | some w => some w.root = lo ∨ some w.root = hi) ∧
   (∀ w, Writer.open L ck img = some w → ∀ rec ∈ recs, (rec.end_ : Int) ≤ w.root.free → agreeRec img rec)
 
+/-- what a later run needs to know about an image it is reopened from: both slots' length
+prefixes keep reads inside the slot, the slot scheduled for the next root write holds nothing as
+new as the recovered root, and the recovered write frontier lies in the data region -/
+structure ReopenOK (L : Layout) (ck : Checksum) (img : Img) : Prop where
+  lenA : lenOK img L.rootA
+  lenB : lenOK img L.rootB
+  stale : ∀ w, Writer.open L ck img = some w →
+    ∀ r', loadValid ck img w.nextRoot = some r' → r'.gen < w.root.gen
+  fs : ∀ w, Writer.open L ck img = some w → (L.freeStart : Int) ≤ w.root.free
+
 /-! ## model equations -/
 
 theorem ensure_root (L : Layout) (w : Writer) (e : Nat) : (w.ensureCapacity L e).1.root = w.root := by
@@ -173,23 +183,43 @@ only be appended later -/
 theorem Quiet.safe (hL : L.OK) {d : Disk} {done : Option Root} {next g D free : Nat} {recs : List Rec}
     (q : Quiet L ck d done next g D free recs) (hi : Option Root) (fut : List Rec)
     (hfut : ∀ rec ∈ fut, free ≤ rec.off) (χ : List (List Bool)) :
-    SafeAt L ck (d.crash χ) done hi (recs ++ fut) := by
+    SafeAt L ck (d.crash χ) done hi (recs ++ fut) ∧ ReopenOK L ck (d.crash χ) := by
   have ho := q.open_crash hL χ
-  unfold SafeAt
-  rw [ho]
-  cases done with
-  | none => exact ⟨rfl, fun w h => by cases h⟩
-  | some r =>
-    refine ⟨Or.inl rfl, ?_⟩
-    intro w hw rec hrec hle
-    simp only [Option.map_some, Option.some.injEq] at hw
-    subst hw
-    simp only [mkW] at hle
-    have hD := q.doneFree r rfl
-    have := q.D_le
-    rcases List.mem_append.mp hrec with h | h
-    · exact q.intact χ h (by omega)
-    · have := hfut rec h; unfold Rec.end_ at hle; omega
+  refine ⟨?_, (q.crash_slot hL χ (Or.inl rfl)).2, (q.crash_slot hL χ (Or.inr rfl)).2, ?_, ?_⟩
+  · unfold SafeAt
+    rw [ho]
+    cases done with
+    | none => exact ⟨rfl, fun w h => by cases h⟩
+    | some r =>
+      refine ⟨Or.inl rfl, ?_⟩
+      intro w hw rec hrec hle
+      simp only [Option.map_some, Option.some.injEq] at hw
+      subst hw
+      simp only [mkW] at hle
+      have hD := q.doneFree r rfl
+      have := q.D_le
+      rcases List.mem_append.mp hrec with h | h
+      · exact q.intact χ h (by omega)
+      · have := hfut rec h; unfold Rec.end_ at hle; omega
+  · intro w hw r' hr'
+    rw [ho] at hw
+    cases done with
+    | none => cases hw
+    | some r =>
+      simp only [Option.map_some, Option.some.injEq] at hw
+      subst hw
+      simp only [mkW] at hr' ⊢
+      rw [(q.crash_slot hL χ q.next_slot).1] at hr'
+      obtain ⟨r0, h0, hlt⟩ := q.stale r' hr'
+      cases h0; exact hlt
+  · intro w hw
+    rw [ho] at hw
+    cases done with
+    | none => cases hw
+    | some r =>
+      simp only [Option.map_some, Option.some.injEq] at hw
+      subst hw
+      exact q.doneFs r rfl
 
 end
 
@@ -280,12 +310,12 @@ theorem other_disjoint (hL : L.OK) {next : Nat} (hn : next = L.rootA ∨ next = 
 neither synced) -/
 theorem torn_safe (hL : L.OK) {d : Disk} {done : Option Root} {next g free : Nat} {recs : List Rec}
     (q : Quiet L ck d done next g free free recs) {new : Root}
-    (hgen : new.gen = g + 1) (hfree : new.free = (free : Int))
+    (hgen : new.gen = g + 1) (hfree : new.free = (free : Int)) (hfs : L.freeStart ≤ free)
     (htorn : TornOK ck d.durable next new) (img : Img)
     (himg : ∃ m1 m2, img = applyMasked (applyMasked d.durable ⟨next, be32Enc (encBody new).length⟩ m1)
       ⟨next + lenPrefixLen, encBody new⟩ m2)
     (fut : List Rec) (hfut : ∀ rec ∈ fut, free ≤ rec.off) :
-    SafeAt L ck img done (some new) (recs ++ fut) := by
+    SafeAt L ck img done (some new) (recs ++ fut) ∧ ReopenOK L ck img := by
   obtain ⟨m1, m2, rfl⟩ := himg
   have hlen := encBody_length_le new
   -- outside the slot being written the image is the durable one
@@ -313,36 +343,85 @@ theorem torn_safe (hL : L.OK) {d : Disk} {done : Option Root} {next g free : Nat
     refine agreeRec_congr (fun i hi _ => hout i (Or.inr ?_)) (e b)
     have := slot_lt hL q.next_slot (i := rootMax - 1) (by unfold rootMax; omega)
     unfold rootMax at *; omega
-  unfold SafeAt
-  rcases open_torn hL ck q.next_slot hcur q.gen hgen hst with ho | ho
-  · rw [ho]
-    cases done with
-    | none => exact ⟨rfl, fun w h => by cases h⟩
-    | some r =>
-      refine ⟨Or.inl rfl, ?_⟩
+  have hlenNext := lenOK_mix (q.lenS q.next_slot) hlen m1 m2 (encBody new)
+  have hlenS : ∀ s, s = L.rootA ∨ s = L.rootB →
+      lenOK (applyMasked (applyMasked d.durable ⟨next, be32Enc (encBody new).length⟩ m1)
+        ⟨next + lenPrefixLen, encBody new⟩ m2) s := by
+    intro s hs
+    by_cases hsn : s = next
+    · subst hsn; exact hlenNext
+    · have : s = L.other next := by
+        rcases hs with rfl | rfl <;> rcases q.next_slot with h | h
+        · exact absurd h.symm hsn
+        · rw [h, Layout.other_B hL]
+        · rw [h, L.other_A]
+        · exact absurd h.symm hsn
+      subst this; exact hother.2
+  rcases open_torn hL ck q.next_slot hcur q.gen hgen hst with ⟨ho, hold⟩ | ⟨ho, hnewload⟩
+  · refine ⟨?_, hlenS _ (Or.inl rfl), hlenS _ (Or.inr rfl), ?_, ?_⟩
+    · unfold SafeAt
+      rw [ho]
+      cases done with
+      | none => exact ⟨rfl, fun w h => by cases h⟩
+      | some r =>
+        refine ⟨Or.inl rfl, ?_⟩
+        intro w hw rec hrec hle
+        simp only [Option.map_some, Option.some.injEq] at hw
+        subst hw
+        simp only [mkW] at hle
+        have hD := q.doneFree r rfl
+        rcases List.mem_append.mp hrec with h | h
+        · exact hdata rec h
+        · have := hfut rec h; unfold Rec.end_ at hle; omega
+    · intro w hw r' hr'
+      rw [ho] at hw
+      cases done with
+      | none => cases hw
+      | some r =>
+        simp only [Option.map_some, Option.some.injEq] at hw
+        subst hw
+        simp only [mkW] at hr' ⊢
+        obtain ⟨r0, h0, hlt⟩ := hold r' hr'
+        cases h0; exact hlt
+    · intro w hw
+      rw [ho] at hw
+      cases done with
+      | none => cases hw
+      | some r =>
+        simp only [Option.map_some, Option.some.injEq] at hw
+        subst hw
+        exact q.doneFs r rfl
+  · refine ⟨?_, hlenS _ (Or.inl rfl), hlenS _ (Or.inr rfl), ?_, ?_⟩
+    · unfold SafeAt
+      rw [ho]
+      refine ⟨Or.inr rfl, ?_⟩
       intro w hw rec hrec hle
-      simp only [Option.map_some, Option.some.injEq] at hw
+      simp only [Option.some.injEq] at hw
       subst hw
-      simp only [mkW] at hle
-      have hD := q.doneFree r rfl
+      simp only [mkW, hfree] at hle
       rcases List.mem_append.mp hrec with h | h
       · exact hdata rec h
       · have := hfut rec h; unfold Rec.end_ at hle; omega
-  · rw [ho]
-    refine ⟨Or.inr rfl, ?_⟩
-    intro w hw rec hrec hle
-    simp only [Option.some.injEq] at hw
-    subst hw
-    simp only [mkW, hfree] at hle
-    rcases List.mem_append.mp hrec with h | h
-    · exact hdata rec h
-    · have := hfut rec h; unfold Rec.end_ at hle; omega
+    · intro w hw r' hr'
+      rw [ho] at hw
+      simp only [Option.some.injEq] at hw
+      subst hw
+      simp only [mkW] at hr' ⊢
+      rw [hcur] at hr'
+      have := q.gen r' hr'
+      omega
+    · intro w hw
+      rw [ho] at hw
+      simp only [Option.some.injEq] at hw
+      subst hw
+      simp only [mkW, hfree]
+      omega
 
 /-- after the barrier that ends the root write, the new root is the committed one -/
 theorem commit_done (hL : L.OK) {d : Disk} {done : Option Root} {next g free : Nat} {recs : List Rec}
     (q : Quiet L ck d done next g free free recs) (hp : d.pending = []) {new : Root}
     (hb : new.Bounded) (hv : new.valid ck = true)
-    (hgen : new.gen = g + 1) (hfree : new.free = (free : Int)) :
+    (hgen : new.gen = g + 1) (hfree : new.free = (free : Int)) (hfs : L.freeStart ≤ free) :
     Quiet L ck ((d.pwrite ⟨next, be32Enc (encBody new).length⟩).pwrite
       ⟨next + lenPrefixLen, encBody new⟩).sync (some new) (L.other next) (g + 1) free free recs := by
   have hlen := encBody_length_le new
@@ -391,7 +470,7 @@ theorem commit_done (hL : L.OK) {d : Disk} {done : Option Root} {next g free : N
         · rw [h, L.other_A]
         · exact absurd h.symm hsn
       subst this; exact hother.2
-  refine ⟨hn', ?_, ?_, ?_, ?_, ?_, ?_, Nat.le_refl _, ?_, ?_⟩
+  refine ⟨hn', ?_, ?_, ?_, ?_, ?_, ?_, Nat.le_refl _, ?_, ?_, ?_⟩
   · rw [hdur]; exact hlenS _ (Or.inl rfl)
   · rw [hdur]; exact hlenS _ (Or.inr rfl)
   · rw [hdur, Layout.other_other hL q.next_slot]; exact hload
@@ -401,6 +480,7 @@ theorem commit_done (hL : L.OK) {d : Disk} {done : Option Root} {next g free : N
   · intro r h; cases h; exact hgen
   · intro p hp'; simp at hp'
   · intro r h; cases h; rw [hfree]; exact Int.le_refl _
+  · intro r h; cases h; rw [hfree]; omega
   · intro rec hrec
     obtain ⟨a, b, _, e⟩ := q.recs_ok rec hrec
     have hag : agreeRec (applyFull (applyFull d.durable ⟨next, be32Enc (encBody new).length⟩)
